@@ -431,7 +431,8 @@ CLAIM = {
             "/repo's source with a symbolic length n and a backing array that only records which rows are touched. For every cell of "
             "the index / slice bounds (None, negative, in range, past the end) the touched backing rows must be exactly the rows the "
             "plain list model denotes, IndexError exactly outside [-n, n), and no operation valid on a list may raise; length "
-            "bookkeeping is n+1 / n+k / n-1 / 0 symbolically. Not decided: the capacity invariant over arbitrary histories, the "
-            "drop-oldest option, returned values.",
+            "bookkeeping is n+1 / n+k / n-1 / 0 symbolically. Bounded histories (length <= 4, thorough 6) of append / bulk append of 0, 2, "
+            "3 rows / delete(first, last, -1, -2) / flush on the repository's class with bucket sizes 2 and 3, with and without "
+            "drop-oldest, are executed abstractly and compared with the list model after every step. Not decided: longer histories, returned values.",
     "note": "Trusted: interpreter semantics; numpy slice semantics of the backing array modelled by Python list slicing.",
 }
